@@ -316,19 +316,29 @@ def map_case(rec, rng, cid, scratch):
         for j in sub:
             idnt = curves[int(j)]
             op = ["fit", "fit", "fit+rate", "refit-other", "reprocess",
-                  "rate"][int(rng.integers(6))]
+                  "rate", "failing-multi-pass-fit"][int(rng.integers(7))]
             try:
                 if op in ("fit", "fit+rate"):
                     if recorded:
                         idnt.apply_preprocessing(pipe)
-                    idnt.fit_model(model_key="hertz_para")
+                    idnt.fit_model(model_key="hertz_para",
+                                   range_type="absolute", range_x=[0, 0])
                     if op == "fit+rate":
                         idnt.rate_quality()
                 elif op == "refit-other":
                     if recorded:
                         idnt.apply_preprocessing(pipe)
                     idnt.fit_model(model_key="hertz_cone",
+                                   range_type="absolute", range_x=[0, 0],
                                    weight_cp=float(rng.choice([0, 3e-7])))
+                elif op == "failing-multi-pass-fit":
+                    # first pass succeeds, later passes select no points:
+                    # the current fit is unsuccessful
+                    if recorded:
+                        idnt.apply_preprocessing(pipe)
+                    idnt.fit_model(model_key="hertz_para",
+                                   range_type="relative cp",
+                                   range_x=(40e-6, 50e-6))
                 elif op == "reprocess":
                     idnt.apply_preprocessing(
                         ["compute_tip_position", "correct_tip_offset"])
@@ -343,7 +353,8 @@ def map_case(rec, rng, cid, scratch):
         # fitted moduli of a synthetic map carry the pixel they were
         # written for (ground truth: E = 1000 (1 + ix + 10 iy))
         for idnt in curves:
-            idnt.fit_model(model_key="hertz_para", weight_cp=0)
+            idnt.fit_model(model_key="hertz_para", weight_cp=0,
+                           range_type="absolute", range_x=[0, 0])
         m = qm.get_qmap("fit: Young's modulus", qmap_only=True)
         exp = np.full((nys, nxs), np.nan)
         for en, ix, iy, E in truth:
